@@ -88,9 +88,16 @@ theorem stepClient_cases' {P : G → Prop} (g : G) (c : Client) (f : Fault)
       P (match bget g.cfg g.store c.kind.key 0 with
          | .found v m => g.finish c (.condFailed (max rev m) (some (c.kind.key, v, m))) rev
          | .notFound _ => g.finish c (.condFailed rev fb) rev))
-    (hNop : P g) : P (stepClient g c f) := by
-  obtain ⟨id, kind, pc, bd⟩ := c
+    (hNop : P g)
+    (hRefuse : dealSite c = true → g.windowFull = true → P (g.refuse c (refusal c))) : P (stepClient g c f) := by
   unfold stepClient
+  split
+  · rename_i h
+    simp only [Bool.and_eq_true] at h
+    exact hRefuse h.1 h.2
+  clear hRefuse
+  obtain ⟨id, kind, pc, bd⟩ := c
+  unfold stepClientCore
   split
   · exact hStartCreate _ _ ‹_› ‹_›
   · exact hStartUpdate _ _ _ ‹_› ‹_›
@@ -329,7 +336,7 @@ theorem eff_createSawIndex {g : G} {c : Client} (hck : CK c) {key : Bytes} (val 
       intro r' hr'
       simp only [Pc.held, Pc.inflight, Option.some.injEq] at hr'
       subst hr'; exact .inl (Pc.held_of_inflight hi)
-    · exact eff_finishCreate_idle (Mid.refl g c) hck val hi h0 hk (by simp)
+    · exact eff_finishCreate_idle (Mid.refl g c) hck val hi h0 hk (tombAbove_ne_ok _ _)
 
 theorem eff_finishCreate_applied {g : G} {c : Client} (hck : CK c) {key val : Bytes} {rev : Nat}
     (hi : c.pc.inflight = some rev) (h0 : rev ≠ 0) (hkv : c.kind.kv = (key, val)) (hcp : c.pc.createPath = true)
@@ -577,6 +584,11 @@ theorem stepClient_eff {g : G} {c : Client} (f : Fault) (hck : CK c) (hpos : ∀
       subst this
       exact .inr ⟨rfl, rfl, hck, fun r hr => .inl hr⟩
     · exact .inl ⟨hc', e⟩
+  · -- `Deal` refused: the request returns, nothing else moves
+    intro _ _
+    refine .inr ⟨⟨rfl, rfl, rfl, rfl, rfl⟩, rfl, rfl, ⟨[], by simp [G.refuse], by simp, by simp⟩, .inl rfl, fun c' hc' => ?_, .inl rfl⟩
+    simp only [G.refuse, List.mem_filter, bne_iff_ne, ne_eq] at hc'
+    exact .inl hc'
 
 /-! ### acknowledged ⇒ applied, definite failure ⇒ not applied -/
 
@@ -711,6 +723,7 @@ theorem AckInv.stepRetryRead {g : G} (h : AckInv g) : AckInv (stepRetryRead g) :
   · intros; exact ⟨h.ck, h.wle, h.held, h.ok, h.cf⟩
   · intros
     exact ⟨h.ck, fun w hw => Nat.le_trans (h.wle w hw) (Nat.le_succ _), h.held, h.ok, h.cf⟩
+  · intros; exact h
 
 theorem AckInv.stepRetryCommit {g : G} (hf : FInv g.view) (h : AckInv g) (f : Fault) : AckInv (stepRetryCommit g f) := by
   obtain ⟨hs, hd⟩ := hf
@@ -1353,7 +1366,7 @@ theorem Cv.stepRetryRead {g0 g : G} (ctx : Ctx g0 g) (h : Cv g)
           · exact hp' (hget.2.trans hr'.symm)
       · exact .inr (.inr ⟨q', hq', hr'⟩)
   · -- the head is still the newest version of its key: a revision is dealt, nothing else moves
-    intro w rest val hn hq hget hne hb
+    intro w rest val hn hq hget hne _ hb
     have hb0 : g.dealt < 2 ^ 64 := by
       have : g.dealt + 1 < 2 ^ 64 := hb
       omega
@@ -1393,6 +1406,7 @@ theorem Cv.stepRetryRead {g0 g : G} (ctx : Ctx g0 g) (h : Cv g)
         rw [hget'.1, ht]
         unfold VerbOK at hvb hvb'
         rw [← hvb, ← hvb']
+  · intro _ _ _; exact h
 
 /-- The retry loop's commit. Applied: the rewrite is the key's last write, covered by its own slot. Not
 applied and the head popped (its compare-and-swap failed): the head was not the last write of its key any more. -/
